@@ -33,6 +33,37 @@ class Stats(object):
         self.slow = []
 
 
+_SYM_CACHE = {}
+
+
+def symbols_of(t):
+    """names of the uninterpreted constants/functions occurring in t"""
+    key = t.get_id()
+    r = _SYM_CACHE.get(key)
+    if r is not None:
+        return r[1]
+    out = set()
+    seen = set()
+    todo = [t]
+    while todo:
+        x = todo.pop()
+        i = x.get_id()
+        if i in seen:
+            continue
+        seen.add(i)
+        if z3.is_app(x):
+            d = x.decl()
+            if d.kind() == z3.Z3_OP_UNINTERPRETED:
+                out.add(d.name())
+            todo.extend(x.children())
+        elif z3.is_quantifier(x):
+            todo.append(x.body())
+    if len(_SYM_CACHE) > 200000:
+        _SYM_CACHE.clear()
+    _SYM_CACHE[key] = (t, out)     # the term is pinned: ids are recycled
+    return out
+
+
 class Ctx(object):
     """state of one explored path"""
 
@@ -53,6 +84,7 @@ class Ctx(object):
         self.trace = []          # human-readable branch notes
         self.used_axioms = set()
         self.notes = {}
+
 
     # -- fresh symbols ----------------------------------------------------
     def fresh_name(self, hint):
@@ -84,6 +116,28 @@ class Ctx(object):
         self.pc.append(f)
         self.solver.add(f)
 
+    def _slice(self, f):
+        """the assertions of pc connected (through shared uninterpreted
+        symbols) to f: the rest of pc is satisfiable on its own as long as pc
+        is, so it cannot affect the feasibility of f"""
+        want = set(symbols_of(f))
+        chosen = []
+        rest = [(a, symbols_of(a)) for a in self.pc]
+        changed = True
+        while changed:
+            changed = False
+            keep = []
+            for a, sy in rest:
+                if sy & want:
+                    chosen.append(a)
+                    if not sy <= want:
+                        want |= sy
+                        changed = True
+                else:
+                    keep.append((a, sy))
+            rest = keep
+        return chosen
+
     def feasible(self, f=None):
         """is pc (and f) satisfiable?  unknown counts as feasible."""
         t0 = time.time()
@@ -91,10 +145,19 @@ class Ctx(object):
         if f is None:
             r = self.solver.check()
         else:
-            r = self.solver.check(f)
+            sl = self._slice(f)
+            if len(sl) < len(self.pc):
+                s2 = z3.Solver()
+                s2.set('timeout', FEAS_TIMEOUT_MS)
+                for a in sl:
+                    s2.add(a)
+                s2.add(f)
+                r = s2.check()
+            else:
+                r = self.solver.check(f)
         dt = time.time() - t0
         self.stats.feas_s += dt
-        if dt > 0.5:
+        if dt > 0.25:
             self.stats.slow.append((round(dt, 2), str(r), str(f)[:200]))
         if r == z3.unknown:
             self.stats.feas_unknown += 1
@@ -109,7 +172,17 @@ class Ctx(object):
             return False
         t0 = time.time()
         self.stats.feas_checks += 1
-        r = self.solver.check(z3.Not(f))
+        nf = z3.Not(f)
+        sl = self._slice(nf)
+        if len(sl) < len(self.pc):
+            s2 = z3.Solver()
+            s2.set('timeout', FEAS_TIMEOUT_MS)
+            for a in sl:
+                s2.add(a)
+            s2.add(nf)
+            r = s2.check()
+        else:
+            r = self.solver.check(nf)
         self.stats.feas_s += time.time() - t0
         return r == z3.unsat
 
@@ -206,6 +279,8 @@ def explore(run, stats=None, max_paths=20000):
         n += 1
         if n > max_paths:
             raise RuntimeError('path budget exceeded (%d)' % max_paths)
+        from .values import unpin_all
+        unpin_all()
         ctx = Ctx(prefix, stats, n)
         try:
             run(ctx)
